@@ -279,7 +279,7 @@ func (c *cfgFloat) toUint(*options) (uint64, error) {
 }
 
 func (c *cfgFloat) toInt(*options) (int64, error) {
-	if c.f < math.MinInt64 || math.MaxInt64 < c.f {
+	if math.IsNaN(c.f) || c.f < math.MinInt64 || math.MaxInt64 <= c.f {
 		return 0, ErrOverflow
 	}
 	return int64(c.f), nil
